@@ -154,7 +154,16 @@ impl Stitch {
                         } else {
                             return Some(entry);
                         }
-                    } else if let Some(hunk) = index_hunks.next().await {
+                    } else if let Some(hunk) = index_hunks.try_next().await {
+                        let hunk = match hunk {
+                            Ok(hunk) => hunk,
+                            Err(err) => {
+                                // The entries of this hunk are lost: say so, and carry on
+                                // with whatever else can be read.
+                                self.monitor.error(err);
+                                continue;
+                            }
+                        };
                         if let Some(last_apath) = hunk.last().map(|entry| entry.apath.clone()) {
                             self.last_apath = Some(last_apath);
                         }
